@@ -197,6 +197,7 @@ func checkC11(p *Prog, res *Result, tier string) {
 	res.rule("C11-R11", "an adapter does not turn a failure of its engine into success or end-of-data: the error of every engine call in badger / tikv is returned (as is, wrapped or translated after a classifying test) on every path on which it can be non-nil", 20)
 	res.rule("C11-R12", "the conditions of a batch see the operations staged earlier in the same batch: the in-process engine reads the store only on the miss edge of the lookup in the batch's staged operations (the transactional engines read through their transaction)", 3)
 	res.rule("C11-R13", "the in-process engine, which keeps the slices it is given and hands out the slices it keeps, never writes a stored value in place", 2)
+	res.rule("C11-R14", "the in-process engine's Commit applies every staged operation: each iteration of its loop over the staged operations passes a Remove or a Set on the skip list", 1)
 	res.rule("C11-R9", "deleting a key that is not there is not an error in any adapter: Del never reports the ErrKeyNotFound sentinel (the compaction deletes a record it has already deleted, and treats any error as a failed delete)", 3)
 	res.rule("C11-R10", "an adapter that advertises native TTL hands the ttl of every write form (Put, PutIfNotExist, CAS) to the engine (or records it with the staged operation)", 6)
 	res.rule("C11-R8", "the in-process engine's iterator yields snapshot copies: live skip-list elements are dereferenced only under the store lock (C19-R3)", 2)
@@ -317,6 +318,8 @@ func checkC11(p *Prog, res *Result, tier string) {
 	checkReadersDoNotMutate(p, r, res, "C11-R3")
 	checkStagedOpsShadowStore(p, r, res, "C11-R12")
 	checkStoredValuesImmutable(p, res, "C11-R13")
+	checkCommitAppliesEveryOp(p, r, res, "C11-R14")
+	checkAdaptersReportCancellation(p, res, "C11-R11")
 	checkAdapterErrorPreservation(p, r, res, "C11-R11")
 	checkNativeTTLHonoured(p, r, res, "C11-R10")
 	checkPartitionClamp(p, r, res, "C11-R7")
@@ -1453,7 +1456,7 @@ func checkC12(p *Prog, res *Result, tier string) {
 
 	sub := p.subResult("C11", tier)
 	for _, o := range sub.Obls {
-		if o.Rule == "C11-R1" || o.Rule == "C11-R2" || o.Rule == "C11-R5" || o.Rule == "C11-R6" || o.Rule == "C11-R7" || o.Rule == "C11-R9" || o.Rule == "C11-R12" || o.Rule == "C11-R13" {
+		if o.Rule == "C11-R1" || o.Rule == "C11-R2" || o.Rule == "C11-R5" || o.Rule == "C11-R6" || o.Rule == "C11-R7" || o.Rule == "C11-R9" || o.Rule == "C11-R12" || o.Rule == "C11-R13" || o.Rule == "C11-R14" {
 			res.add("C12-R0", o.Rule+" "+o.Construct, o.Status, o.Pos, o.Detail)
 		}
 	}
